@@ -325,7 +325,7 @@ inductive Kind where
   | listCard
   /-- `validateTokenName`: "name must be all uppercase, …" -/
   | nameInvalid
-  /-- `validateTokenName`: "sorry, %q is a reserved name" -/
+  /-- `validateTokenName`, `ParserRule.RunPass`: "sorry, %q is a reserved name" -/
   | nameReserved
   /-- `ParserRule.RunPass`: "rule name cannot contain consecutive underscores: %v" -/
   | ruleNameInvalid
@@ -506,7 +506,7 @@ def isReserved (n : Name) : Bool := n == "EOF" || n == "ERROR"
 inductive NameCheck where
   /-- tokens, macros, external names: `validateTokenName` -/
   | lexical
-  /-- parser rules: no `__` -/
+  /-- parser rules: no `__`, not reserved -/
   | rule
   /-- modes: none -/
   | none
@@ -535,7 +535,9 @@ def Ev.validate (ev : Ev) : List Diag :=
     else if isReserved ev.name then [⟨.nameReserved, ev.line, ev.name, some ev.id⟩]
     else []
   | .rule =>
-    if !ruleNameOk ev.name then [⟨.ruleNameInvalid, ev.line, ev.name, some ev.id⟩] else []
+    if !ruleNameOk ev.name then [⟨.ruleNameInvalid, ev.line, ev.name, some ev.id⟩]
+    else if isReserved ev.name then [⟨.nameReserved, ev.line, ev.name, some ev.id⟩]
+    else []
   | .none => []
 
 /-- `TokenRule.RunPass` (CreateNames), `MacroRule.RunPass`, `ExternalName.RunPass`,
@@ -790,11 +792,14 @@ def ValidTokenName (n : Name) : Prop :=
   (¬ ∃ pre post, n.toList = pre ++ '_' :: '_' :: post) ∧
   n ≠ "EOF" ∧ n ≠ "ERROR"
 
-/-- parser_reference.md: "must not contain consecutive underscores". (The other two documented
-conditions — a Go identifier that does not start with an underscore — hold for every `ID` token of
-a `.lox` file, `[A-Za-z][A-Za-z0-9_]*`, i.e. they are part of "the file parses".) -/
+/-- parser_reference.md: "must not contain consecutive underscores"; and the reserved names `EOF`,
+`ERROR` (lexer_reference.md reserves them for lexical names; `@error` is the terminal `ERROR` and the
+helper rules of `?`, `*`, `+` are named after their term, so the front end reserves them for rules
+too). The other two documented conditions — a Go identifier that does not start with an underscore —
+hold for every `ID` token of a `.lox` file, `[A-Za-z][A-Za-z0-9_]*`: they are part of "the file
+parses". -/
 def ValidRuleName (n : Name) : Prop :=
-  ¬ ∃ pre post, n.toList = pre ++ '_' :: '_' :: post
+  (¬ ∃ pre post, n.toList = pre ++ '_' :: '_' :: post) ∧ n ≠ "EOF" ∧ n ≠ "ERROR"
 
 /-- The name is declared as a token rule / macro / mode / parser rule / external token. -/
 def Spec.IsToken (s : Spec) (n : Name) : Prop := ∃ a, (n, Ent.token a) ∈ s.declared
@@ -926,6 +931,8 @@ the model's diagnostics so that the harness also checks it against what the gene
 
 def validTokenNameB (n : Name) : Bool := tokenNameShapeOk n && !isReserved n
 
+def validRuleNameB (n : Name) : Bool := ruleNameOk n && !isReserved n
+
 def Ent.isToken : Ent → Bool
   | .token _ => true
   | _ => false
@@ -971,7 +978,7 @@ def wellFormedB (s : Spec) : Bool :=
   syntaxOkB s &&
   decide (s.declared.map (·.1)).Nodup &&
   s.declared.all (fun p => !(p.2.isToken || p.2.isMacro || p.2.isExt) || validTokenNameB p.1) &&
-  s.declared.all (fun p => !p.2.isRule || ruleNameOk p.1) &&
+  s.declared.all (fun p => !p.2.isRule || validRuleNameB p.1) &&
   s.leaves.all (fun l => l.refName.all (s.hasB Ent.isMacro)) &&
   s.actions.all (fun a => match a with
     | .pushMode _ m => m == defaultMode || s.hasB Ent.isMode m
